@@ -452,3 +452,12 @@ func (r *Run) Done() {
 		os.Remove(p + ".pending")
 	}
 }
+
+// Hash gives a fingerprint of a spec (for CaseKey).
+func Hash(spec interface{}) uint64 {
+	b, err := json.Marshal(spec)
+	if err != nil {
+		return 0
+	}
+	return fp(b)
+}
